@@ -133,7 +133,7 @@ def run(ctx):
                 continue
             try:
                 sts, order = decode_structs(out.toks)
-                conds = conditions(sts, order, holes, base_match_for)
+                conds = conditions(sts, order, holes, base_match_for, fmt)
             except UnknownType as e:
                 raise Inconclusive(f'emitted Rust type the decoder does not know: {e}')
             m = ctx.check(pc, z3.Or([z3.Not(c_) for _, c_ in conds]))
@@ -165,7 +165,7 @@ def run(ctx):
     ctx.extra['violations_by_rule'] = seen
 
 
-def conditions(sts, order, holes, base_match_for):
+def conditions(sts, order, holes, base_match_for, fmt=None):
     B = z3.BoolVal
     conds = []
     HA, HB, HC = holes['HA'], holes['HB'], holes['HC']
@@ -177,6 +177,8 @@ def conditions(sts, order, holes, base_match_for):
         fd = {f[0]: f for f in host['fields']}
         if NAME0 in fd:
             conds.append(('Host.m0: element type', HA.matches(decode_type(fd[NAME0][2]), base_match=base_match_for(HA))))
+            if fmt is not None:
+                conds.append(('Host.m0: spelled in the selected representation', HA.repr_ok(decode_type(fd[NAME0][2]), fmt)))
         if 'm1' in fd:
             conds.append(('Host.m1: element type', HB.matches(decode_type(fd['m1'][2]), base_match=base_match_for(HB))))
         if 'inner' in fd:
@@ -188,6 +190,14 @@ def conditions(sts, order, holes, base_match_for):
         if 'tail' in fd:
             sem = decode_type(fd['tail'][2])
             is_rt = z3.And(HC.tdisc == HC.TI['Array'], HC.adyn)
+            if fmt is not None:
+                # element of the trailing (runtime or fixed) array, when it is one of the symbolic leaf types: selected representation too
+                el = sem.get('rt') or sem.get('elem')
+                if isinstance(el, dict) and 'repr' in el:
+                    for h_, what_, _ in HC.bases:
+                        if isinstance(what_, TypeHole):
+                            conds.append((f'Host.tail: elements spelled in the selected representation', z3.Implies(
+                                z3.And(HC.tdisc == HC.TI['Array'], HC.base == h_), what_.repr_ok(el, fmt))))
             if 'rt' in sem:
                 marked = fd['tail'][1] == ['size (runtime)']
                 conds.append(('Host.tail: runtime array -> Vec<elem> marked #[size(runtime)]',
@@ -230,11 +240,12 @@ def replay(ctx, holes, fmt, m, opts_fixed, base_match_for, failed):
         sts, order = decode_structs(toks)
         if 'Host' in sts:       # the native output carries the concrete name where the symbolic run has the abstract one
             sts['Host']['fields'] = [((NAME0 if f[0] == name0 else f[0]),) + tuple(f[1:]) for f in sts['Host']['fields']]
-        conds = conditions(sts, order, holes, base_match_for)
+        conds = conditions(sts, order, holes, base_match_for, fmt)
     except (UnknownType, T.DecodeError) as e:
         det['real'] = f'does not decode: {e}'
         return True, det
     s = z3.Solver()
+    s.add(fmt == m.eval(fmt, model_completion=True))
     for h in holes.values():
         for v in h.vars():
             s.add(v == m.eval(v, model_completion=True))
